@@ -6,15 +6,21 @@
 package main
 
 import (
+	"bytes"
 	"context"
 	"encoding/json"
 	"errors"
+	"flag"
 	"fmt"
 	"io/ioutil"
+	"math"
+	"os"
+	exec0 "os/exec"
 	"path/filepath"
 	"strings"
 	"sync"
 	"sync/atomic"
+	"syscall"
 	"time"
 
 	"github.com/samsarahq/thunder/batch"
@@ -105,7 +111,9 @@ type manyCall struct {
 type callerRes struct {
 	returned bool
 	val      interface{}
-	kind     string // "" value | user | panic | wronglen | ctx | other:<text> | invoke-panic:<text>
+	err      error
+	kind     string // "" value | user (the harness's own error, returned by its Many) | ctx | liberr (any other error: the
+	// batch package's own, for a panic or a wrong result count of Many) | invoke-panic:<text>.  Never decided by message text.
 }
 
 type exec struct {
@@ -165,16 +173,24 @@ func errKind(err error) string {
 	switch {
 	case err == nil:
 		return ""
-	case err == errUser:
+	case errors.Is(err, errUser):
 		return "user"
-	case err == context.Canceled:
+	case errors.Is(err, context.Canceled), errors.Is(err, context.DeadlineExceeded):
 		return "ctx"
-	case strings.HasPrefix(err.Error(), "Func.Many panicked"):
-		return "panic"
-	case strings.Contains(err.Error(), "incorrect number of results"):
-		return "wronglen"
 	}
-	return "other:" + err.Error()
+	return "liberr"
+}
+
+// wantKind: what the members of a batch get for an outcome of the harness's Many script
+var wantKind = map[string]string{"ok": "", "slow": "", "err": "user", "panic": "liberr", "short": "liberr", "long": "liberr"}
+
+func sameErr(a, b error) (same bool) {
+	defer func() {
+		if recover() != nil {
+			same = false
+		}
+	}()
+	return a == b
 }
 
 func runCase(c *Case) (*exec, bool) {
@@ -286,7 +302,7 @@ func runCase(c *Case) (*exec, bool) {
 				}()
 				e.free.Handler("h.invoke", i)
 				v, err := fs[c.funcOf(i)].Invoke(ctx, mkArg(c.argOf(i)))
-				r.val, r.kind = v, errKind(err)
+				r.val, r.err, r.kind = v, err, errKind(err)
 			}()
 			r.returned = true
 			e.mu.Lock()
@@ -417,6 +433,31 @@ func oracle(e *exec, all bool) []failure {
 			add("argument-never-fetched", "value %d was passed to Func %d's Invoke %d times (%d got the context error) but occurs only %d times in the calls of Many: some call's argument was never handed to Many as its own slot", k.vid, k.fid, n, askedCtx[k], seen[k])
 		}
 	}
+	// the members of one batch (as the join points show them) all get the same thing: all a value, or all the very
+	// same error
+	members := map[interface{}][]int{}
+	for _, ev := range e.free.Snapshot() {
+		if ev.Point == "batch.join" && ev.G >= 0 && ev.G < c.Callers {
+			members[ev.Args[0]] = append(members[ev.Args[0]], ev.G)
+		}
+	}
+	for _, ms := range members {
+		first := -1
+		for _, i := range ms {
+			if !e.res[i].returned || strings.HasPrefix(e.res[i].kind, "invoke-panic") {
+				continue
+			}
+			if first < 0 {
+				first = i
+				continue
+			}
+			a, b := e.res[first], e.res[i]
+			if (a.err == nil) != (b.err == nil) || (a.err != nil && !sameErr(a.err, b.err)) {
+				add("batch-members-got-different-outcomes", "Invoke(%d) and Invoke(%d) joined the same batch but got (%v, %v) and (%v, %v)", first, i, a.val, a.err, b.val, b.err)
+				break
+			}
+		}
+	}
 	anyCancel := false
 	for _, f := range e.fired {
 		anyCancel = anyCancel || f
@@ -431,8 +472,6 @@ func oracle(e *exec, all bool) []failure {
 		switch {
 		case strings.HasPrefix(r.kind, "invoke-panic"):
 			add("invoke-panics", "Invoke(%d) with argument value %d: %s", i, k.vid, r.kind)
-		case strings.HasPrefix(r.kind, "other"):
-			add("unexpected-error", "Invoke(%d): %s", i, r.kind)
 		case r.kind == "ctx":
 			if stale, who := e.staleCancel(i); stale {
 				add("context-error-from-finished-cancelled-batch", "Invoke(%d) started after every cancelled caller (%v) had returned, its own context is live, yet it got the context error and its argument was never fetched", i, who)
@@ -446,7 +485,7 @@ func oracle(e *exec, all bool) []failure {
 			// the caller belongs to one of the batches that saw its value
 			wants := map[string]bool{}
 			for _, mc := range sawIn[k] {
-				wants[map[string]string{"ok": "", "slow": "", "err": "user", "panic": "panic", "short": "wronglen", "long": "wronglen"}[mc.outcome]] = true
+				wants[wantKind[mc.outcome]] = true
 			}
 			if !wants[r.kind] {
 				add("wrong-error-kind", "Invoke(%d) got error kind %q, the batches that saw its argument give %v", i, r.kind, wants)
@@ -462,18 +501,23 @@ func oracle(e *exec, all bool) []failure {
 
 // ---- the log as events of Batch/Model.v ----
 
-func coqRet(val int, kind string) string {
+// coqRet: the model's return value for what Invoke returned.  An error of the batch package itself is EPanic or
+// EWrongLen according to what the harness's Many did for that caller's batch (outcome), never according to its text.
+func coqRet(val int, kind string, outcome string) string {
 	switch kind {
 	case "":
 		return fmt.Sprintf("(RVal %d)", val)
 	case "user":
 		return "(RErr EUser)"
-	case "panic":
-		return "(RErr EPanic)"
-	case "wronglen":
-		return "(RErr EWrongLen)"
 	case "ctx":
 		return "(RErr ECtx)"
+	case "liberr":
+		switch outcome {
+		case "panic":
+			return "(RErr EPanic)"
+		case "short", "long":
+			return "(RErr EWrongLen)"
+		}
 	}
 	return "RIndexPanic"
 }
@@ -503,6 +547,8 @@ func emit(e *exec) ([]string, emitStats) {
 	pendingCancel := map[int]bool{}
 	cancelled := map[int]bool{}
 	cid := map[int]int{}
+	callerG := map[int]int{}
+	gOutcome := map[int]string{}
 	closedNow := false
 	deleted := map[int]bool{}
 	gid := func(p interface{}) int {
@@ -563,6 +609,7 @@ func emit(e *exec) ([]string, emitStats) {
 				st.groups++
 			}
 			g := gid(a[0])
+			callerG[who] = g
 			cid[who] = len(cid)
 			size[g]++
 			if size[g] > st.maxGroup {
@@ -615,6 +662,7 @@ func emit(e *exec) ([]string, emitStats) {
 				st.nonOk++
 			}
 			final[g] = true
+			gOutcome[g] = mc.outcome
 			evs = append(evs, fmt.Sprintf("(LRun %d %s, ObMany %d %s)", g, o, mc.fid, natList(mc.args)))
 			flush(g)
 		case "batch.cancelled":
@@ -632,7 +680,7 @@ func emit(e *exec) ([]string, emitStats) {
 			if !ok {
 				ci = 99999
 			}
-			evs = append(evs, fmt.Sprintf("(LReturn %d, ObRet %s)", ci, coqRet(val, kind)))
+			evs = append(evs, fmt.Sprintf("(LReturn %d, ObRet %s)", ci, coqRet(val, kind, gOutcome[callerG[who]])))
 		}
 	}
 	for g := range pendingCancel {
@@ -702,6 +750,19 @@ func genCase(r *vh.Rng) *Case {
 	}
 	if r.Chance(15) {
 		c.Limit = 1 + r.Intn(4)
+	}
+	if r.Chance(8) {
+		// boundary configurations: MaxSize 1 / huge ("unlimited"), zero and negative durations (= the defaults)
+		c.MaxSize = []int{1, math.MaxInt32, math.MaxInt64, 1 << 40, math.MaxInt64 - 1}[r.Intn(5)]
+		if r.Chance(50) {
+			c.WaitUs = []int{0, -5}[r.Intn(2)]
+		}
+		if r.Chance(30) {
+			c.MaxDurUs = []int{0, -1}[r.Intn(2)]
+		}
+		if c.Callers > 12 {
+			c.Callers = 2 + r.Intn(10)
+		}
 	}
 	if r.Chance(35) {
 		// argument values shared between callers (resolvers ask for the same key many times) and values of
@@ -900,8 +961,86 @@ func variant(r *vh.Rng, seed *Case) *Case {
 	return c
 }
 
+// ---- risky configurations run in a child process: a fatal runtime error (out of memory on an absurd allocation)
+// cannot be recovered in-process; the parent reports the death of the child as a failure of the case ----
+
+type childOut struct {
+	All   bool        `json:"all"`
+	Fails [][2]string `json:"fails"`
+	Evs   []string    `json:"evs"`
+	St    [6]int      `json:"st"`
+	Holds int         `json:"holds"`
+}
+
+func risky(c *Case) bool { return c.MaxSize >= 1<<20 || c.MaxSize2 >= 1<<20 }
+
+func childMain(path string) {
+	// address space limit: an absurd allocation fails at once instead of hurting the machine
+	lim := syscall.Rlimit{Cur: 6 << 30, Max: 6 << 30}
+	syscall.Setrlimit(syscall.RLIMIT_AS, &lim)
+	var c Case
+	b, err := ioutil.ReadFile(path)
+	if err != nil || json.Unmarshal(b, &c) != nil {
+		os.Exit(3)
+	}
+	e, all := runCase(&c)
+	out := childOut{All: all, Holds: e.free.HoldsHit}
+	for _, f := range oracle(e, all) {
+		out.Fails = append(out.Fails, [2]string{f.sig, f.detail})
+	}
+	var st emitStats
+	out.Evs, st = emit(e)
+	out.St = [6]int{st.groups, st.joinsAfterWake, st.rollovers, st.cancels, st.nonOk, st.maxGroup}
+	jb, _ := json.Marshal(out)
+	os.Stdout.Write(append([]byte("CHILD-RESULT "), append(jb, '\n')...))
+	os.Exit(0)
+}
+
+func runInChild(c *Case, dir string, idx int) (fs []failure, evs []string, st emitStats, all bool, holds int) {
+	path := filepath.Join(dir, fmt.Sprintf("child-%d.json", idx))
+	b, _ := json.Marshal(c)
+	ioutil.WriteFile(path, b, 0o644)
+	defer os.Remove(path)
+	cmd := exec0.Command(os.Args[0], "-child", path)
+	var outb, errb bytes.Buffer
+	cmd.Stdout, cmd.Stderr = &outb, &errb
+	done := make(chan error, 1)
+	if err := cmd.Start(); err != nil {
+		return []failure{{"child-process-not-started", err.Error()}}, nil, st, false, 0
+	}
+	go func() { done <- cmd.Wait() }()
+	var werr error
+	select {
+	case werr = <-done:
+	case <-time.After(30 * time.Second):
+		cmd.Process.Kill()
+		werr = errors.New("killed after 30 s")
+	}
+	for _, line := range strings.Split(outb.String(), "\n") {
+		if strings.HasPrefix(line, "CHILD-RESULT ") {
+			var o childOut
+			if json.Unmarshal([]byte(strings.TrimPrefix(line, "CHILD-RESULT ")), &o) == nil {
+				for _, f := range o.Fails {
+					fs = append(fs, failure{f[0], f[1]})
+				}
+				st = emitStats{o.St[0], o.St[1], o.St[2], o.St[3], o.St[4], o.St[5]}
+				return fs, o.Evs, st, o.All, o.Holds
+			}
+		}
+	}
+	tail := errb.String()
+	if len(tail) > 600 {
+		tail = tail[:600]
+	}
+	return []failure{{"invoke-kills-the-process", fmt.Sprintf("the process running this case died (%v): %s", werr, strings.Join(strings.Fields(tail), " "))}}, nil, st, false, 0
+}
+
 func main() {
+	child := flag.String("child", "", "internal: run the single case in this file and print its result")
 	o := vh.ParseFlags()
+	if *child != "" {
+		childMain(*child)
+	}
 	run := vh.NewRun("C05", o)
 	run.Rule = "2-40 concurrent callers of one Func, MaxSize 0-5, 1-3 shards (or no Shard function), wait interval 20us-2ms, max duration 100us-5ms, arrival delays, outcome of each call of Many by seed (ok / slow / error / panic / short / long result), cancellation of chosen callers' contexts at chosen events, perturbation and holds at hook points, 15% under a concurrency limiter; scripted windows (join after wake-up, join after unpublish, MaxSize roll-over); non-trivial = (at least 2 groups or a group of at least 3) and at least one of: MaxSize roll-over, cancellation, non-ok outcome, a join between wake-up and unpublish, a hold that was hit; distinct by case"
 	r := vh.NewRng(o.Seed)
@@ -989,18 +1128,31 @@ func main() {
 			c.DelaysUs = []int{0}
 		}
 		run.LogCase(idx, c)
-		e, all := runCase(c)
-		fs := oracle(e, all)
-		evs, st := emit(e)
+		var e *exec
+		var all bool
+		var fs []failure
+		var evs []string
+		var st emitStats
+		holdsHit := 0
+		if risky(c) {
+			fs, evs, st, all, holdsHit = runInChild(c, o.Out, idx)
+			e = &exec{c: c}
+			run.Hist("ran-in-child-process")
+		} else {
+			e, all = runCase(c)
+			fs = oracle(e, all)
+			evs, st = emit(e)
+			holdsHit = e.free.HoldsHit
+		}
 		nontrivial := (st.groups >= 2 || st.maxGroup >= 3) &&
-			(st.rollovers+st.cancels+st.nonOk+st.joinsAfterWake+e.free.HoldsHit > 0)
+			(st.rollovers+st.cancels+st.nonOk+st.joinsAfterWake+holdsHit > 0)
 		kb, _ := json.Marshal(c)
 		run.Count(string(kb), nontrivial)
 		run.Hist("origin:" + strings.SplitN(c.Origin, ":", 2)[0])
 		if strings.HasPrefix(c.Origin, "script:") {
 			run.Hist(c.Origin)
 		}
-		run.Hist(fmt.Sprintf("maxsize:%d", c.MaxSize))
+		run.Hist(fmt.Sprintf("maxsize:%d", mini(c.MaxSize, 6)))
 		run.Hist(fmt.Sprintf("funcs:%d", maxi(1, c.Funcs)))
 		if len(c.ShardVals) > 0 {
 			run.Hist("shards:typed-values-that-print-alike")
@@ -1047,7 +1199,8 @@ func main() {
 			}
 			continue
 		}
-		terms = append(terms, fmt.Sprintf("(%d, mk_case [%d; %d] %s %v)", idx, c.MaxSize, c.MaxSize2, vh.CoqList(evs), all))
+		// a MaxSize beyond any possible number of callers is "never full"; the model gets 1000 for it (nat literal)
+		terms = append(terms, fmt.Sprintf("(%d, mk_case [%d; %d] %s %v)", idx, mini(c.MaxSize, 1000), mini(c.MaxSize2, 1000), vh.CoqList(evs), all))
 		if len(terms) >= shard {
 			flush()
 			start = idx + 1
